@@ -6,12 +6,12 @@ SLOT="$1"; P="$2"; shift 2
 IDS="${*:-C01 C02 C03 C04 C05 C06 C07 C08 C09 C10 C11 C12 C13 C14 C15 C16 C17 C18 C19 C20}"
 S=/root/ns/$SLOT
 mkdir -p "$S/repo" "$S/verif"
-rsync -rlpgoD --checksum --delete --exclude target /repo/ "$S/repo/"
+rsync -rlpgoD --checksum --delete --exclude target "${NS_REPO_SRC:-/repo}/" "$S/repo/"
 if [ ! -d "$S/verif/target" ]; then
     rsync -a /verif/target/ "$S/verif/target/" --exclude run --exclude scratch
     rsync -a /verif/target-repo/ "$S/verif/target-repo/"
 fi
-rsync -rlpgoD --checksum --delete --exclude target --exclude target-repo --exclude replays --exclude .git --exclude seeded /verif/ "$S/verif/"
+rsync -rlpgoD --checksum --delete --exclude target --exclude target-repo --exclude replays --exclude .git --exclude seeded "${NS_VERIF_SRC:-/verif}/" "$S/verif/"
 if [ "$P" != "-" ]; then
     case "$P" in /*) ;; *) P="/verif/$P";; esac
     if ! git -C "$S/repo" apply --check "$P" 2>/dev/null; then echo "== $P: PATCH-DOES-NOT-APPLY"; exit 3; fi
